@@ -49,7 +49,7 @@ This is round {rnd}: all of the changes listed above were eventually detected (m
 
 ALSO (separately from your two changes): while reading and probing, note any input for which the CLEAN, unmodified tree already fails the property as stated (a crash, a wrong result, an unreported error, an outcome that varies from run to run). Report up to three such observations at the end under the heading CLEAN-TREE OBSERVATIONS, each with the exact input (module texts / calls) and the exact output you saw when you ran it on the clean tree; only report what you actually ran. Do not build your two changes on them.
 
-ALREADY KNOWN about the clean tree (do not report these again, and do not build on them): (1) nesting of a million levels and more overflows the goroutine stack in the parser and in the tree builder; (2) with two revisions of a module that both include one submodule, only the latest revision's tree gets the submodule's nodes, and a submodule "belongs to" the latest revision of its module; (3) a module without a revision statement is rejected as a duplicate when loaded after a same-named module with a revision, and silently shadowed in the other order; (4) Entry.Find ignores the prefixes of all path steps but the first; (5) deviate delete of min-elements 0 / max-elements unbounded on a list that states no such bound is accepted; (6) an unknown statement that is a required field of the other module kind (belongs-to in a module) is reported at the module statement's position; (7) refine and uses-augment are parsed and not applied; re-listing enum members in a derived type replaces the list; number literals are read with Go base-0 syntax (0x10, 010, 1_0, +5); a nested include (a submodule included only by another submodule) contributes groupings but not typedefs or identities to the module; reads (ToEntry, Find that creates an absent rpc input/output, ToEntry of a synthetic case node) that build or create entries are not safe to run concurrently; (8) an augment (or deviation) path that names the implicit case of a shorthand choice member (/m:c/m:ch/m:x) is looked up before the implicit cases exist and reaches the member x itself; an implicit case carries the config of its member; (9) a recursive search-path entry (dir/...) visits files and subdirectories in one name order, a dangling name.yang symlink makes the loader move on, a foo.yang whose content is module bar is loaded as bar; (10) a deviation of the absent input or output of an rpc is accepted (the lookup creates the node); (11) structurally equal union members are merged, duplicate definitions (two groupings, typedefs or identities of one name in one scope or in a module and its submodule) are not reported, range on a string and length on an integer are accepted, restrictions and numbers tolerate non-YANG white space, a type name may be written ":t"; (12) Find with a prefix that the start node's file does not import records an error on the tree; (13) after a failed Write the indenting writer's line state reflects the whole chunk; extension statements of a leaf-list appear twice in Entry.Exts; a submodule that no loaded module includes is ignored by Process (its identities, typedefs and errors).
+ALREADY KNOWN about the clean tree (do not report these again, and do not build on them): (1) nesting of a million levels and more overflows the goroutine stack in the parser and in the tree builder; (2) with two revisions of a module that both include one submodule, only the latest revision's tree gets the submodule's nodes, and a submodule "belongs to" the latest revision of its module; (3) a module without a revision statement is rejected as a duplicate when loaded after a same-named module with a revision, and silently shadowed in the other order; (4) Entry.Find ignores the prefixes of all path steps but the first; (5) deviate delete of min-elements 0 / max-elements unbounded on a list that states no such bound is accepted; (6) an unknown statement that is a required field of the other module kind (belongs-to in a module) is reported at the module statement's position; (7) refine and uses-augment are parsed and not applied; re-listing enum members in a derived type replaces the list; number literals are read with Go base-0 syntax (0x10, 010, 1_0, +5); a nested include (a submodule included only by another submodule) contributes groupings but not typedefs or identities to the module; reads (ToEntry, Find that creates an absent rpc input/output, ToEntry of a synthetic case node) that build or create entries are not safe to run concurrently; (8) an augment (or deviation) path that names the implicit case of a shorthand choice member (/m:c/m:ch/m:x) is looked up before the implicit cases exist and reaches the member x itself; an implicit case carries the config of its member; (9) a recursive search-path entry (dir/...) visits files and subdirectories in one name order, a dangling name.yang symlink makes the loader move on, a foo.yang whose content is module bar is loaded as bar; (10) a deviation of the absent input or output of an rpc is accepted (the lookup creates the node); (11) structurally equal union members are merged, duplicate definitions (two groupings, typedefs or identities of one name in one scope or in a module and its submodule) are not reported, range on a string and length on an integer are accepted, restrictions and numbers tolerate non-YANG white space, a type name may be written ":t"; (12) Find with a prefix that the start node's file does not import records an error on the tree; (13) after a failed Write the indenting writer's line state reflects the whole chunk; extension statements of a leaf-list appear twice in Entry.Exts; a submodule that no loaded module includes is ignored by Process (its identities, typedefs and errors); (14) an import with a revision-date whose revision is not loaded binds to whatever revision of that module is loaded, and the named revision is looked for on the search path only when none is loaded (so a processing run between loads can change what the import denotes); (15) the grouping statement's own status/reference/extension statements are stamped on every top-level copy; (16) the input or output of an rpc that a deviation removed comes back, empty, when it is looked up; a second GetModule re-processes the set and leaves earlier trees behind; (17) EnumType does not survive a JSON round trip or a zero value; bits positions need not be unique; (18) typedef chains or nesting of several hundred thousand levels overflow the stack; nested uses towers expand exponentially.
 
 Final answer: for each change, the one-sentence summary, what it needs to manifest, and the exact output lines showing suite-pass + demo-fail with the change and demo-pass without it. If you could only produce one valid change, say so plainly.
 """
